@@ -873,3 +873,171 @@ Section Proofs.
     - intros n. rewrite E1, E2. reflexivity.
   Qed.
 End Proofs.
+
+(* ------------------------------------------------------------------------------------------ *)
+(* Plan edits with recycling                                                                   *)
+(* ------------------------------------------------------------------------------------------ *)
+Lemma listN_eqb_eq (a b : list N) : listN_eqb a b = true -> a = b.
+Proof.
+  revert b. induction a as [|x a IH]; intros [|y b]; cbn; intros H; try discriminate; try reflexivity.
+  apply andb_true_iff in H. destruct H as [H1 H2]. apply N.eqb_eq in H1. subst. f_equal. auto.
+Qed.
+
+Lemma step_eqb_eq (a b : step) : step_eqb a b = true -> a = b.
+Proof.
+  unfold step_eqb. intros H. apply andb_true_iff in H. destruct H as [H H4].
+  apply andb_true_iff in H. destruct H as [H H3]. apply andb_true_iff in H. destruct H as [H1 H2].
+  apply N.eqb_eq in H1. apply listN_eqb_eq in H2, H3, H4. destruct a, b. cbn in *. subst. reflexivity.
+Qed.
+
+Lemma find_step_in (P : project) (s : step) :
+  NoDup (map sid P) -> In s P -> find_step P (sid s) = Some s.
+Proof.
+  intros Hnd Hs. unfold find_step. destruct (find (fun x => sid x =? sid s) P) as [q|] eqn:E.
+  - apply find_some in E. destruct E as [Hq He]. apply N.eqb_eq in He.
+    rewrite (sid_unique P q s Hnd Hq Hs He). reflexivity.
+  - exfalso. apply (find_none _ _ E) in Hs. rewrite N.eqb_refl in Hs. discriminate.
+Qed.
+
+(* a step of the new project that is kept is, as a whole, a step of the old project *)
+Lemma kept_in_old (P P' : project) (s : step) :
+  NoDup (map sid P') -> In s P' -> kept P P' (sid s) = true -> In s P.
+Proof.
+  intros Hnd Hs H. unfold kept in H. rewrite (find_step_in P' s Hnd Hs) in H.
+  destruct (find_step P (sid s)) as [a|] eqn:E; [|discriminate].
+  apply step_eqb_eq in H. subst a. unfold find_step in E. apply find_some in E. apply E.
+Qed.
+
+Section DynProofs.
+  Variable run : N -> list (option N) -> list (option N) -> N -> N.
+  Notation Pre := (Pre run).
+  Notation Finished := (Finished run).
+  Notation trace_valid := (trace_valid run).
+
+  (* what is left of the invariant when the project changes under a state: traces are valid, K
+     holds, and every input of a SUCCEEDED step has a content; the closure is NOT assumed *)
+  Definition PreWeak (proj : project) (y : sys) : Prop :=
+    (forall s t, In s proj -> tr y (sid s) = Some t -> trace_valid s t) /\
+    K proj y /\
+    (forall s, In s proj -> stt y (sid s) = Succeeded ->
+               forall p, In p (inp s) -> fs y p <> None).
+
+  Lemma Pre_PreWeak (proj : project) (y : sys) : Pre proj y -> PreWeak proj y.
+  Proof.
+    intros (H1 & H2 & H3). split; [exact H1|]. split; [exact H2|].
+    intros s Hs Hst p Hp. apply (ready_avail proj y s p (H3 s Hs Hst) Hp).
+  Qed.
+
+  (* the outputs of a SUCCEEDED step with a valid matching trace exist *)
+  Lemma succeeded_output_some (proj : project) (y : sys) (q : step) (p : N) :
+    PreWeak proj y -> In q proj -> stt y (sid q) = Succeeded -> In p (out q) -> fs y p <> None.
+  Proof.
+    intros (Htv & HK & _) Hq Hst Hp. destruct (HK q Hq Hst) as (t & Ht & _ & _ & Ho).
+    destruct (Htv q t Hq Ht) as (_ & _ & Hv).
+    assert (Hin : In (p, fs y p) (t_out t)).
+    { rewrite Ho. unfold ingredients. apply in_map_iff. exists p. auto. }
+    rewrite Hv in Hin. unfold produced in Hin. apply in_map_iff in Hin.
+    destruct Hin as (p' & Heq & _). injection Heq as _ Hc. rewrite <- Hc. discriminate.
+  Qed.
+
+  (* pending propagation REPAIRS the closure: from the weak invariant it establishes the full one *)
+  Lemma mark_Pre_weak (proj : project) (y : sys) (d de : N -> bool) (f' e' : N -> option N) :
+    WF proj -> PreWeak proj y ->
+    (forall x, d x = false -> f' x = fs y x) ->
+    (forall m, de m = false -> e' m = ev y m) ->
+    (forall x, In x (outs proj) -> f' x = fs y x) ->
+    Pre proj (mkSys f' e' (tr y) (mark proj d de (stt y))).
+  Proof.
+    intros (Hid & Hnd & Htopo) HW Hf He Ho. pose proof HW as (Htv & HK & Hsome).
+    set (y' := mkSys f' e' (tr y) (mark proj d de (stt y))).
+    assert (Hkeep : forall s, In s proj -> stt y' (sid s) = Succeeded ->
+                    stt y (sid s) = Succeeded /\ (forall p, In p (inp s) -> f' p = fs y p) /\
+                    (forall n, In n (envn s) -> e' n = ev y n)).
+    { intros s Hs H. destruct (mark_unmarked proj d de (stt y) s Hid Hs H) as (H1 & H2 & H3).
+      split; [exact H1|]. split; intros; [apply Hf|apply He]; auto. }
+    split; [|split].
+    - exact Htv.
+    - intros s Hs H. destruct (Hkeep s Hs H) as (H1 & H2 & H3).
+      destruct (HK s Hs H1) as (t & Ht & Hi & Hev & Hou). exists t. cbn [tr fs ev y'].
+      split; [exact Ht|]. split; [|split].
+      + rewrite Hi. apply ingredients_ext. intros k Hk. symmetry. apply H2. exact Hk.
+      + rewrite Hev. apply ingredients_ext. intros k Hk. symmetry. apply H3. exact Hk.
+      + rewrite Hou. apply ingredients_ext. intros k Hk. symmetry. apply Ho. apply in_outs.
+        exists s. auto.
+    - intros s Hs H. destruct (Hkeep s Hs H) as (H1 & H2 & _).
+      unfold ready. rewrite forallb_forall. intros p Hp. unfold avail. cbn [fs stt y'].
+      pose proof (Hsome s Hs H1 p Hp) as Hne. rewrite (H2 p Hp).
+      destruct (producer proj p) as [id|] eqn:E.
+      + apply producer_some in E. destruct E as (q & Hq & <- & Hpq).
+        rewrite (mark_closed proj d de (stt y) s q p Hid Htopo Hs Hq Hpq Hp H). cbn.
+        destruct (fs y p); [reflexivity|contradiction].
+      + destruct (fs y p); [reflexivity|contradiction].
+  Qed.
+
+  (* retargeting the stored workflow to the new project keeps the weak invariant *)
+  Lemma retarget_PreWeak (P P' : project) (y : sys) :
+    WF P' -> Pre P y -> PreWeak P' (retarget P P' y).
+  Proof.
+    intros (Hid' & _ & _) HP. pose proof (Pre_PreWeak P y HP) as (Htv & HK & Hsome).
+    split; [|split].
+    - intros s t Hs Ht. cbn in Ht. destruct (kept P P' (sid s)) eqn:Ek; [|discriminate].
+      apply (Htv s t (kept_in_old P P' s Hid' Hs Ek) Ht).
+    - intros s Hs Hst. cbn in Hst. destruct (kept P P' (sid s)) eqn:Ek; [|discriminate].
+      destruct (HK s (kept_in_old P P' s Hid' Hs Ek) Hst) as (t & Ht & Hrest).
+      exists t. cbn. rewrite Ek. auto.
+    - intros s Hs Hst p Hp. cbn in Hst. destruct (kept P P' (sid s)) eqn:Ek; [|discriminate].
+      cbn. apply (Hsome s (kept_in_old P P' s Hid' Hs Ek) Hst p Hp).
+  Qed.
+
+  Lemma rebuild_dyn_inv (P P' : project) (w : world) (y : sys) :
+    WF P' -> Pre P y ->
+    Pre P' (rebuild_dyn run P y P' w) /\ Finished P' (rebuild_dyn run P y P' w) /\
+    (forall p, is_output P' p = false -> fs (rebuild_dyn run P y P' w) p = fst w p) /\
+    (forall n, ev (rebuild_dyn run P y P' w) n = snd w n).
+  Proof.
+    intros Hwf HP. unfold rebuild_dyn.
+    assert (HPre : Pre P' (resync P' (retarget P P' y) w)).
+    { unfold resync. apply mark_Pre_weak; auto.
+      - apply retarget_PreWeak; assumption.
+      - intros x Hx. apply oN_eqb_false_eq. exact Hx.
+      - intros m Hm. apply oN_eqb_false_eq. exact Hm.
+      - intros x Hx. assert (E : is_output P' x = true) by (apply memN_In; exact Hx).
+        rewrite E. reflexivity. }
+    destruct (build_establishes_K run P' _ Hwf HPre) as (H1 & _ & H3 & [H4 H5]).
+    split; [exact H1|]. split; [exact H3|]. split.
+    - intros p Hp. rewrite <- (H4 p Hp). cbn. rewrite Hp. reflexivity.
+    - intros n. rewrite <- H5. reflexivity.
+  Qed.
+
+  (* every state reached by a history of (project, world) pairs satisfies the invariant of its
+     current project *)
+  Lemma run_dyn_inv (hist : list (project * world)) (acc : project * sys) :
+    (forall pw, In pw hist -> wf (fst pw) = true) -> Pre (fst acc) (snd acc) ->
+    Pre (fst (fold_left (dyn_step run) hist acc)) (snd (fold_left (dyn_step run) hist acc)).
+  Proof.
+    revert acc. induction hist as [|pw hist IH]; intros acc Hwf HP; [exact HP|].
+    cbn [fold_left]. apply IH.
+    - intros x Hx. apply Hwf. right. exact Hx.
+    - cbn. apply rebuild_dyn_inv; [|exact HP]. apply wf_WF. apply Hwf. left. reflexivity.
+  Qed.
+
+  (* Plan edits with recycling: after ANY history of (project, world) pairs -- the plan may add,
+     drop and redefine steps between builds, sources, declarations and variables may change
+     arbitrarily -- building the last pair on top of what the earlier builds left gives the result
+     of building it on nothing. *)
+  Theorem dyn_equiv_scratch (hist : list (project * world)) (P : project) (w : world) :
+    (forall pw, In pw hist -> wf (fst pw) = true) -> wf P = true ->
+    same_result P (snd (run_dyn run (hist ++ [(P, w)]))) (build_world run P w empty_sys).
+  Proof.
+    intros Hh HP. pose proof (wf_WF P HP) as Hwf.
+    unfold run_dyn. rewrite fold_left_app. cbn [fold_left dyn_step fst snd].
+    set (acc := fold_left (dyn_step run) hist ([], empty_sys)).
+    assert (Hacc : Pre (fst acc) (snd acc)).
+    { apply run_dyn_inv; [exact Hh|]. cbn. apply empty_Pre. }
+    destruct (rebuild_dyn_inv (fst acc) P w (snd acc) Hwf Hacc) as (_ & F1 & S1 & E1).
+    destruct (build_world_inv run P w empty_sys Hwf (empty_Pre run P)) as (_ & F2 & S2 & E2).
+    apply (finished_unique run P _ _ Hwf F1 F2). split.
+    - intros p Hp. rewrite (S1 p Hp), (S2 p Hp). reflexivity.
+    - intros n. rewrite E1, E2. reflexivity.
+  Qed.
+End DynProofs.
